@@ -735,7 +735,7 @@ def norm_doc(doc):
                          "comments": [{"value": _freeze(k.value), "card": k.cardinality, "ratio": k.ratio,
                                        "rt": k.ratio_text, "count": k.count, "raw": k.raw}
                                       for k in c.figure_comments()]})
-        out.append({"label": sh.label_iri, "N": sh.n_instances, "cons": cons})
+        out.append({"label": sh.label_iri, "N": sh.n_instances, "cons": cons, "min_iri": sh.min_iri})
     return out
 
 
